@@ -146,6 +146,8 @@ ProbeLogout(c) ==
   { [Ev("Logout", b) EXCEPT !.method = m] : b \in Browsers, m \in {c.logoutMethod, "GET"} }
 
 Ticks(ds) == { [Ev("Tick", NONE) EXCEPT !.d = d] : d \in ds }
+\* single units: with whole ticks they reach both sides of every threshold (Thr(k) = G*k + 5) to the unit
+Tocks(ds) == { [Ev("Tock", NONE) EXCEPT !.d = d] : d \in ds }
 
 Admin(acts, ps) == { [Ev(a, NONE) EXCEPT !.pid = p] : a \in acts, p \in ps }
 
@@ -159,7 +161,7 @@ EventsOf(Fam, S, c) ==
                ELSE {})
     [] Fam = "lock" ->
          { [Ev("LoginPost", "b1") EXCEPT !.pid = p, !.pw = w] : p \in {"u1", "u2"}, w \in {1, 2, -1} }
-         \cup Ticks({1, c.lockWindow + 1, c.lockDuration + 1})
+         \cup Ticks({1, c.lockWindow, c.lockWindow + 1, c.lockDuration, c.lockDuration + 1}) \cup Tocks({5, 6})
          \cup Admin({"AdminLock", "AdminUnlock"}, {"u1"})
          \cup { Ev("Probe", "b1") }
     [] Fam = "remember" ->
@@ -175,14 +177,14 @@ EventsOf(Fam, S, c) ==
                ELSE {})
     [] Fam = "expire" ->
          { [Ev("LoginPost", b) EXCEPT !.pid = "u1", !.pw = 1] : b \in Browsers }
-         \cup ProbeLogout(c) \cup Ticks({1, c.expireAfter, c.expireAfter + 1})
+         \cup ProbeLogout(c) \cup Ticks({1, c.expireAfter, c.expireAfter + 1}) \cup Tocks({1, 5, 6})
          \cup { [Ev("AppKey", "b1") EXCEPT !.k = k] : k \in {"app1", "app2"} }
     [] Fam = "recover" ->
          { [Ev("LoginPost", "b1") EXCEPT !.pid = p, !.pw = w] : p \in {"u1", "u2"}, w \in {1, 2, 3} }
          \cup { [Ev("RecoverStart", "b1") EXCEPT !.pid = p] : p \in {"u1", "u2", "g1"} }
          \cup { [Ev("RecoverEnd", b) EXCEPT !.tok = t, !.pw = 3, !.valid = v] :
                   b \in Browsers, t \in {-1} \cup 1..S.iss["rt"], v \in BOOLEAN }
-         \cup Ticks({1, 2}) \cup { Ev("Probe", "b1"), Ev("Probe", "b2") }
+         \cup Ticks({1, 2}) \cup Tocks({5, 6}) \cup { Ev("Probe", "b1"), Ev("Probe", "b2") }
          \cup (IF Has(c, "lock") THEN Admin({"AdminLock"}, {"u1"}) ELSE {})
     [] Fam = "register" ->
          { [Ev("RegisterPost", b) EXCEPT !.pid = p, !.pw = w, !.valid = v] :
@@ -279,7 +281,7 @@ Next ==
 Spec == Init /\ [][Next]_mvars
 
 Bound ==
-  /\ st.now <= MaxNow
+  /\ st.now <= G * MaxNow
   /\ \A k \in Kinds : st.iss[k] <= MaxIss
   /\ TLCGet("level") <= MaxDepth
 
